@@ -38,6 +38,8 @@ SIG = {
     # [x]_64 of SP 800-38D 4.2.1 (the 64-bit big-endian string of a non-negative integer x < 2^64) and its little-endian
     # counterpart of RFC 8439 2.8 ("64-bit little-endian integer"): notations, kept symbolic so that no proof has to
     # reason about div/mod of the digits
+    # [v]_{8n}: the n-byte big-endian string of v (0 <= v < 256^n) -- same notation for any width
+    'ibe': {'sort': 'bytes', 'uf': True, 'facts': ['impl(n >= 0, len(result) == n)']},
     'u64be': {'sort': 'bytes', 'uf': True, 'facts': ['len(result) == 8', 'impl(conj(n >= 0, n < 18446744073709551616), be(result) == n)']},
     'u64le': {'sort': 'bytes', 'uf': True, 'facts': ['len(result) == 8', 'result == spec.aead1.u64be(n)[::-1]']},
     # ---- result sorts of the defined functions (for `opaque=`) -------------------------------------------------
@@ -89,6 +91,10 @@ def u64be(n):
     pass
 
 
+def ibe(v, n):
+    pass
+
+
 def u64le(n):
     pass
 
@@ -128,7 +134,7 @@ def be4(x):
 
 def inc32(x):
     """6.2: increment the rightmost 32 bits modulo 2^32, leave the left 96 bits (x: 16 bytes)"""
-    return x[:12] + i2osp((be4(x[12:]) + 1) % 4294967296, 4)
+    return x[:12] + ibe((be4(x[12:]) + 1) % 4294967296, 4)
 
 
 def gcm_s_input(s, alen, clen):
